@@ -20,7 +20,7 @@ from gens import fa as GF, cfg as GC, pda as GP, fst as GT, regex as GR
 from models import fa as MF, regex as MR, ig as MI
 
 ID = "C19"
-CASES = {"quick": 500, "thorough": 9000}
+CASES = {"quick": 250, "thorough": 6000}
 RULE = ("seeded histories of 5-40 public calls on a pool of live automata, regexes, grammars, PDAs, transducers "
         "and indexed grammars (queries, conversions, conversions of conversions, same object as both operands, "
         "generators opened / stepped / closed) with injected faults (mutation of returned objects, mutation of "
@@ -330,6 +330,9 @@ def snapshot(kind, obj):
         return (str(obj), str(GR.from_lib(obj)), tuple(bool(obj.accepts(list(w))) for w in PROBE))
     if kind == "cfg":
         r = GC.extract(obj)
+        if len(r.prods) > 40:
+            # a large product grammar: structure only (membership on it costs seconds)
+            return (r.digest(), tuple(sorted(r.variables)), tuple(sorted(r.terminals)))
         return (r.digest(), tuple(sorted(r.variables)), tuple(sorted(r.terminals)),
                 tuple(bool(obj.contains(list(w))) for w in PROBE[:6]), bool(obj.is_empty()))
     if kind == "pda":
@@ -384,7 +387,7 @@ def same_meaning(a, b):
 
 # ---------------------------------------------------------------------------- the run
 class Entry:
-    __slots__ = ("id", "kind", "obj", "recipe", "muts", "snap")
+    __slots__ = ("id", "kind", "obj", "recipe", "muts", "snap", "stable")
 
 
 def _do(name, obj, other, arg):
@@ -417,6 +420,11 @@ def _do(name, obj, other, arg):
         for s in obj.final_states:
             e.add_final_state(s)
         return e
+    if name == "fa.to_deterministic":
+        r = obj.to_deterministic()
+        if r is obj and CF.get("dfa_to_deterministic_copies"):
+            r = obj.copy()       # counterfactual normalisation for known finding KF-C19-1
+        return r
     if name.startswith("fa."):
         m = getattr(obj, name[3:])
         return m(other) if other is not None else m()
@@ -436,9 +444,12 @@ def _do(name, obj, other, arg):
     if name == "cfg.generate_epsilon":
         return bool(obj.generate_epsilon())
     if name == "cfg.symbols":
-        return (sorted(GC.lib_sym(x) for x in obj.get_generating_symbols()),
-                sorted(GC.lib_sym(x) for x in obj.get_nullable_symbols()),
-                sorted(GC.lib_sym(x) for x in obj.get_reachable_symbols()))
+        # variable names of derived grammars are internal numbering: terminals by name, variables by count
+        def view(xs):
+            xs = [GC.lib_sym(x) for x in xs]
+            return (sorted(x for x in xs if x[0] == "T"), sum(1 for x in xs if x[0] == "V"))
+        return (view(obj.get_generating_symbols()), view(obj.get_nullable_symbols()),
+                view(obj.get_reachable_symbols()))
     if name == "cfg.words":
         return sorted(tuple(GC.lib_sym(x) for x in wd) for wd in obj.get_words(3))
     if name == "cfg.tree":
@@ -476,6 +487,18 @@ def _do(name, obj, other, arg):
     raise ValueError(name)
 
 
+def _int_named(kind, obj):
+    """mutation targets are chosen by rank among the sorted state values; that is meaningful across the live
+    object and its replica when the values are plain ints (a constant offset keeps the ranks)"""
+    if kind == "fa":
+        return all(isinstance(x.value, int) for x in obj.states)
+    if kind == "fst":
+        return all(isinstance(x, int) for x in obj.states)
+    if kind == "pda":
+        return False
+    return True
+
+
 def _frontier(t):
     if not t.sons:
         return [t.value]
@@ -485,7 +508,26 @@ def _frontier(t):
     return out
 
 
+CF = {}
+
+
+def _kf_dfa_to_deterministic_returns_self(case, clause):
+    """KF-C19-1: DeterministicFiniteAutomaton.to_deterministic() returns self.  Attributed only if the very
+    same history no longer fails once that one call hands out a copy instead (counterfactual)."""
+    from sim.core import run_case
+    import sys
+    if case.get("cf") or not any(o["op"] == "fa.to_deterministic" for o in case["ops"]):
+        return False
+    o = run_case(sys.modules[__name__], dict(case, cf={"dfa_to_deterministic_copies": True}))
+    return clause not in o.clauses()
+
+
+KNOWN = {"dfa_to_deterministic_returns_self": _kf_dfa_to_deterministic_returns_self}
+
+
 def run(case, out):
+    CF.clear()
+    CF.update(case.get("cf") or {})
     entries = {}
     order = []
     gens = {}
@@ -516,6 +558,7 @@ def run(case, out):
         if e.obj is FAILED:
             return
         e.snap = None
+        e.stable = True
         entries[e.id] = e
         order.append(e.id)
     out.shape = digest(case)
@@ -527,14 +570,23 @@ def run(case, out):
         for eid in order:
             e = entries[eid]
             try:
-                s = _bounded(out, lambda: snapshot(e.kind, e.obj))
+                s = _bounded(out, lambda: snapshot(e.kind, e.obj), budget=3000000)
             except Exception as ex:
                 s = ("#exception#", type(ex).__name__)
+            if s is BUDGETED:
+                out.probe("snapshot_budget_exhausted_not_compared")
+                continue
             if eid in skip or e.snap is None:
                 e.snap = s
                 continue
             if s != e.snap:
-                return eid, e.snap, s
+                why = ""
+                if isinstance(s, tuple) and isinstance(e.snap, tuple):
+                    for i, (x, y) in enumerate(zip(e.snap, s)):
+                        if x != y:
+                            why = "component %d: %s -> %s" % (i, str(x)[:160], str(y)[:160])
+                            break
+                return eid, e.snap, s, why
         return None
 
     resnap()
@@ -584,6 +636,9 @@ def run(case, out):
         if name == "mutate":
             if any(g["src"] == on and not g["done"] for g in gens.values()):
                 continue        # mutating a container while a generator walks it is outside every contract
+            if not e.stable and not _int_named(e.kind, e.obj):
+                out.probe("mutation_skipped_unstable_names")
+                continue
             what = out.call("mutate." + e.kind, apply_mutator, e.kind, e.obj, op["arg"])
             if what is FAILED or what is None:
                 continue
@@ -593,7 +648,7 @@ def run(case, out):
             out.fault("alias_mutation" if is_alias else "operand_mutation")
             bad = resnap(skip=(on,))
             if bad:
-                out.fail("I1:mutation-leaked", step=step, mutated=on, mutated_kind=e.kind, mutator=what,
+                out.fail("I1:mutation-leaked", step=step, mutated=on, mutated_kind=e.kind, mutator=what, why=bad[3],
                          changed=bad[0], changed_kind=entries[bad[0]].kind,
                          relation=("source" if e.recipe[0] == "op" and bad[0] in (e.recipe[2], e.recipe[3])
                                    else "other"))
@@ -652,7 +707,7 @@ def run(case, out):
                 out.fault("error_path")
             bad = resnap()
             if bad:
-                out.fail("I1:changed-by-failed-call", step=step, entry=bad[0], kind=entries[bad[0]].kind)
+                out.fail("I1:changed-by-failed-call", step=step, entry=bad[0], kind=entries[bad[0]].kind, why=bad[3])
                 return
             executed += 1
             continue
@@ -660,6 +715,8 @@ def run(case, out):
         k1, k2, kr = OPS[name]
         if e.kind != k1:
             continue
+        if name == "regex.str" and e.recipe[0] != "build":
+            continue        # the text of a derived regex follows set order and state numbering: internal
         other = None
         if k2 is not None:
             oid = op.get("other")
@@ -679,7 +736,8 @@ def run(case, out):
         if want is BUDGETED:
             continue
         try:
-            got = _bounded(out, lambda: _do(name, e.obj, other, op.get("arg", 0)))
+            # the live call gets ten times the budget within which the fresh replica answered
+            got = _bounded(out, lambda: _do(name, e.obj, other, op.get("arg", 0)), budget=1500000)
             got_exc = None
         except Exception as ex:
             got, got_exc = None, type(ex).__name__
@@ -721,6 +779,10 @@ def run(case, out):
                          len(entries[op["other"]].muts) if k2 is not None else 0)
             ne.muts = []
             ne.snap = None
+            # names of states derived from a Regex object carry its running counter, which legitimately
+            # differs between the live object and a fresh replica
+            ne.stable = (e.stable and (k2 is None or entries[op["other"]].stable)
+                         and e.kind != "regex" and (k2 != "regex"))
             if any(got is entries[x].obj for x in order):
                 out.probe("conversion_returned_an_existing_object")
             entries[ne.id] = ne
@@ -728,7 +790,7 @@ def run(case, out):
         bad = resnap()
         if bad:
             out.fail("I1:operand-changed", step=step, op=name, entry=bad[0], kind=entries[bad[0]].kind,
-                     is_operand=bad[0] in (on, op.get("other")))
+                     is_operand=bad[0] in (on, op.get("other")), why=bad[3])
             return
     out.probe("history_len_%d0s" % (executed // 10))
     out.nontrivial = executed >= 8 and len({entries[x].kind for x in order}) >= 2
